@@ -472,6 +472,8 @@ func term(t *testing.T, id uint64, h History, outs []string, final [][2]uint64) 
 func TestC18(t *testing.T) {
 	col := NewCollector("C18", "Check.C18",
 		"histories of 5-60 ops (block events, head events, lookups with scripted fetch outcome, groups of 2-6 overlapping lookups, cleans) over 1-8 roots; non-trivial = contains both a successful miss and a hit (sequential lookups); distinct by full history text")
+	// the long-chain histories cost the checker seconds each: smaller shards, checked in parallel
+	col.ShardSize = 200
 	n := EnvInt("VERIF_N", 1000)
 	var hs []History
 	for _, h := range LoadInputs[History]("C18") {
@@ -480,7 +482,12 @@ func TestC18(t *testing.T) {
 	}
 	rng := NewRand(Seed())
 	for i := 0; i < n; i++ {
-		hs = append(hs, gen(rng.Fork()))
+		r := rng.Fork()
+		if class := longClassOf(i); class != "" {
+			hs = append(hs, genLong(r, class))
+			continue
+		}
+		hs = append(hs, gen(r))
 	}
 	for _, h := range hs {
 		for _, op := range h.Ops {
@@ -514,7 +521,11 @@ func TestC18(t *testing.T) {
 		if h.StartHead != nil {
 			col.Count("starthead")
 		}
-		col.Count(fmt.Sprintf("roots:%d", len(h.Chain)))
+		if len(h.Chain) <= 8 {
+			col.Count(fmt.Sprintf("roots:%d", len(h.Chain)))
+		} else {
+			col.Count(longFamily(h))
+		}
 		id := col.NextID()
 		col.Add(Case{Term: term(t, id, h, outs, final), Nontrivial: nt, Tags: h.Tags,
 			Sample: map[string]any{"input": h, "observed": outs, "final": final}})
